@@ -11,7 +11,8 @@ ToBe(a, n) == Rev(ToBytes(a, NBytes(n)))
 CheckEnc(e) ==
   LET a == e.a  n == e.bits
       le == ToLe(a, n)  be == ToBe(a, n)
-  IN [ le_slice |-> Eq(e, "le_slice", le), le_bytes |-> Eq(e, "le_bytes", le),
+  IN [ sizes |-> Eq(e, "sizes", <<NBytes(n), (n + 63) \div 64, NBytes(n), (n + 63) \div 64, n>>),
+       le_slice |-> Eq(e, "le_slice", le), le_bytes |-> Eq(e, "le_bytes", le),
        le_trim |-> Eq(e, "le_trim", a),
        to_le |-> Eq(e, "to_le", le), to_be |-> Eq(e, "to_be", be),
        le_vec |-> Eq(e, "le_vec", le), be_vec |-> Eq(e, "be_vec", be),
